@@ -145,6 +145,19 @@ Example C11_demo_hypotheses :
     = [[None; None]; [Some 0; None]; [None; None]; [None; None]; [None; None]].
 Proof. vm_compute. repeat split; try reflexivity. left; reflexivity. Qed.
 
+(* bulk children assignment with a free task 4: [2; 1].children = [4] is accepted - 2 adopts 4 (owner WBS 0), then 1
+   takes 4 and releases 2, which loses its owner; [1; 2].children = [4] is rejected by the second element (2 was
+   released by the first assignment and 4 belongs to the WBS by then): the call is undone, owners as before *)
+Example C11_demo_bulk :
+  let s := fst (step demo (NewTask 5%Z None [] None)) in
+  (let r := step s (LstSetChildren [2; 1] [Some 4]) in
+   pub_args s (LstSetChildren [2; 1] [Some 4]) = true /\ outcome_code (snd r) = 0 /\
+   map (fun x => own (get (hp (fst r)) x)) [1; 2; 4] = [Some 0; None; Some 0] /\ wf_own_b (fst r) = true) /\
+  (let r := step s (LstSetChildren [1; 2] [Some 4]) in
+   outcome_code (snd r) = 1 /\ fst r = s /\ map (fun x => own (get (hp (fst r)) x)) [1; 2; 4] = [Some 0; Some 0; None] /\
+   map (fun x => own (get (hp (fst (set_children s 1 [Some 4]))) x)) [1; 2; 4] = [Some 0; None; Some 0]).
+Proof. vm_compute. repeat split; reflexivity. Qed.
+
 (* wf_own_b is not trivially true: a removed task that kept its owner pointer (defect F5) *)
 Example C11_stale_owner_rejected_by_wf_own_b :
   wf_own_b (mkS [mkT 9223372036854775807%Z None [] [] [] (Some 0) true None [] None;
@@ -168,4 +181,5 @@ Print Assumptions C11_removed_wbs_all.
 Print Assumptions C11_oracle.
 Print Assumptions C11_demo_owner.
 Print Assumptions C11_demo_hypotheses.
+Print Assumptions C11_demo_bulk.
 Print Assumptions C11_stale_owner_rejected_by_wf_own_b.
